@@ -231,19 +231,45 @@ func topLevelIndex(list []ast.Stmt, pred func(ast.Stmt) bool) int {
 	return -1
 }
 
+// loadImportsLoops finds the discovery (worklist) loop and the ordering loop of the
+// loader by shape, in loadImports or in helpers it was split into:
+//   discovery: for len(W) > 0 { ... W = W[:len(W)-1] ... }   (W a slice)
+//   ordering:  for len(M) > 0 { ... delete(M, k) ... }       (M a map)
+// fd is the function holding the discovery loop.
 func (c *Ctx) loadImportsLoops() (fd *ast.FuncDecl, first, second *ast.ForStmt) {
-	fd = c.Func("loadImports")
-	if fd == nil {
+	root := c.Func("loadImports")
+	if root == nil {
 		return
 	}
-	for _, s := range fd.Body.List {
-		if f, ok := s.(*ast.ForStmt); ok {
-			if first == nil {
-				first = f
-			} else if second == nil {
-				second = f
+	for _, h := range c.withHelpers(root) {
+		ast.Inspect(h.Body, func(n ast.Node) bool {
+			f, ok := n.(*ast.ForStmt)
+			if !ok || f.Cond == nil {
+				return true
 			}
-		}
+			be, ok := unparen(f.Cond).(*ast.BinaryExpr)
+			if !ok {
+				return true
+			}
+			call, ok := unparen(be.X).(*ast.CallExpr)
+			if !ok || c.CalleeName(call) != "builtin.len" || len(call.Args) != 1 {
+				return true
+			}
+			switch c.TypeOf(call.Args[0]).Underlying().(type) {
+			case *types.Slice:
+				if first == nil {
+					first, fd = f, h
+				}
+			case *types.Map:
+				if second == nil {
+					second = f
+				}
+			}
+			return true
+		})
+	}
+	if first == nil || second == nil {
+		return nil, nil, nil
 	}
 	return
 }
@@ -256,6 +282,17 @@ func premLoadImportsSeed(c *Ctx) (bool, string) {
 		return false, "loadImports does not have its two loops"
 	}
 	seeded := false
+	ast.Inspect(c.Func("loadImports").Body, func(n ast.Node) bool {
+		// a helper called with a seeded literal: collect(sys, []string{topPkg}, ...)
+		if cl, ok := n.(*ast.CompositeLit); ok && len(cl.Elts) >= 1 {
+			if sl, isSlice := c.TypeOf(cl).Underlying().(*types.Slice); isSlice {
+				if b, isB := sl.Elem().Underlying().(*types.Basic); isB && b.Kind() == types.String {
+					seeded = true
+				}
+			}
+		}
+		return true
+	})
 	for _, s := range fd.Body.List {
 		if as, ok := s.(*ast.AssignStmt); ok && len(as.Rhs) == 1 {
 			if cl, ok := unparen(as.Rhs[0]).(*ast.CompositeLit); ok && len(cl.Elts) >= 1 {
